@@ -81,6 +81,40 @@ try:
 except Exception as e:      # noqa
     bad.append("vibronic trimer could not be built: %s: %s" % (type(e).__name__, str(e)[:80]))
 
+# ---- assembly: the built Hamiltonian and dipole operator of a vibronic aggregate are the state-pair functions element by element -------
+try:
+    with qr.energy_units("1/cm"):
+        mols_ = []
+        for k_ in range(2):
+            m_ = qr.Molecule([0.0, 12000.0 + 200 * k_])
+            m_.set_dipole(0, 1, [1.0 + k_, 0.5 * k_, -0.3])
+            md_ = qr.Mode(frequency=100.0 + 40 * k_)
+            m_.add_Mode(md_)
+            md_.set_nmax(0, 3)
+            md_.set_nmax(1, 3)
+            md_.set_HR(1, 0.3 + 0.2 * k_)
+            mols_.append(m_)
+        ag_ = qr.Aggregate(mols_)
+        ag_.set_resonance_coupling(0, 1, 70.0)
+    ag_.build(mult=1)
+    H_ = numpy.array(ag_.get_Hamiltonian().data)
+    D_ = numpy.array(ag_.get_TransitionDipoleMoment().data)
+    sts_ = [st for (_, st) in ag_.allstates(mult=1)]
+    if len(sts_) != 27 or H_.shape != (27, 27):
+        bad.append("two molecules with one mode of three levels each: %d vibronic states, expected 27 (9 per electronic state)" % len(sts_))
+    else:
+        with qr.energy_units("int"):
+            for a_, s1_ in enumerate(sts_):
+                for b_, s2_ in enumerate(sts_):
+                    if abs(numpy.zeros(3) + ag_.transition_dipole(s1_, s2_) - D_[a_, b_]).max() > 1e-12:
+                        bad.append("built dipole operator element (%d,%d) differs from molecular dipole times overlap" % (a_, b_))
+                    want_ = s1_.energy() if a_ == b_ else ag_.coupling(s1_, s2_)
+                    if abs(H_[a_, b_] - want_) > 1e-12:
+                        bad.append("built Hamiltonian element (%d,%d) = %.6g differs from the state-pair value %.6g" % (a_, b_, H_[a_, b_], want_))
+            bad[:] = bad[:20]
+except Exception as e_:      # noqa
+    bad.append("assembly part raised %s: %s" % (type(e_).__name__, str(e_)[:120]))
+
 for b in bad[:10]:
     print("VIOLATED:", b)
 print("C10 oracle: %d violations" % len(bad))
